@@ -103,3 +103,32 @@ Proof.
   repeat split; assumption.
 Qed.
 Print Assumptions C03_code_floor.
+
+(* ---- the X STEP AS TRANSLATED (Gen/G_admm_x.v; facts: Proofs/GenEquivGU.v): x_update_prox(S, reinflate(z - u), rho) and nothing else ---- *)
+From Ticc Require Import Gen.PySkel Gen.G_admm_x Proofs.GenEquivGU.
+Section SkelGU03.
+  Local Open Scope string_scope.
+  Variable V : Type.
+  Variable vnone : V.
+  Variable vint : Z -> V.
+  Variable as_int : V -> option Z.
+  Variable veq : V -> V -> bool.
+  Variable getattr : V -> string -> V.
+  Variable truthy : V -> bool.
+  Variable is_none : V -> bool.
+  Variables vtrue vfalse : V.
+  Variable as_list : V -> list V.
+  Variable vglobal : string -> V.
+  Variable oracle : list (event V) -> string -> list V -> res V.
+  Theorem C03_code_x_step (args u z empirical_covariance r : V) (log log' : list (event V)) :
+    g_admm_update_x V getattr oracle args u z empirical_covariance log = (Ret r, log') ->
+    exists d full,
+      log' = (log ++ [Ev "op:-" [z; u]; Ev f_reinflate [d];
+                      Ev "x_update_prox" [empirical_covariance; full; getattr args "rho"]])%list /\
+      oracle log "op:-" [z; u] = Ret d /\
+      oracle (log ++ [Ev "op:-" [z; u]]) f_reinflate [d] = Ret full /\
+      oracle (log ++ [Ev "op:-" [z; u]; Ev f_reinflate [d]])
+             "x_update_prox" [empirical_covariance; full; getattr args "rho"] = Ret r.
+  Proof. intros; eapply admm_x_returns; eassumption. Qed.
+End SkelGU03.
+Print Assumptions C03_code_x_step.
